@@ -36,6 +36,15 @@ CONTROLS: List[Tuple[str, str, str, str, Callable[[Program], list], str]] = [
     ("R-PRECISION", "roi", "",
      "def _vp_ctl_prec(a, b, n):\n    import numpy as np\n    return np.linspace(a, b, n, dtype='float32')\n",
      lambda p: generic.rule_precision(p, {"roi"}), "_vp_ctl_prec#single"),
+    ("R-SHAREDMUT", "cog._rio", "",
+     "_VP_CTL_OPTS = {'tiled': True}\n\ndef _vp_ctl_shared(**other):\n    opts = _VP_CTL_OPTS\n    opts.update(**other)\n    return opts\n",
+     lambda p: generic.rule_sharedmut(p, {"cog._rio"}), "_vp_ctl_shared#module-state"),
+    ("R-ITERTWICE", "geom", "",
+     "def _vp_ctl_iter(geoms: Iterable[Geometry]):\n    out = [g.geom for g in geoms]\n    return out, common_crs(geoms)\n",
+     lambda p: generic.rule_itertwice(p, {"geom"}), "_vp_ctl_iter#geoms"),
+    ("R-EPSGPROXY", "overlap", "",
+     "def _vp_ctl_epsg(a, b):\n    return a.crs.epsg == b.crs.epsg\n",
+     lambda p: generic.rule_epsg_proxy(p, {"overlap"}), "_vp_ctl_epsg#epsg-compare"),
     ("R-ABSEPS", "geobox", "GeoBox",
      "def _vp_ctl_abseps(self):\n    return self._affine.is_rectilinear\n",
      lambda p: generic.rule_abseps(p, {"geobox"}), "_vp_ctl_abseps#abs-eps"),
